@@ -30,6 +30,8 @@ def apply_edit(root, v):
         return flip_comparisons_tree(root)
     if v.get('transform') == 'keywordize_calls':
         return keywordize_calls_tree(root)
+    if v.get('transform') == 'numpy_functions':
+        return numpy_functions_tree(root)
     path = os.path.join(root, 'setigen', v['file'])
     if not os.path.exists(path):
         return 'file missing'
@@ -255,6 +257,42 @@ def keywordize_calls_tree(root):
                 n.args = []
         with open(path, 'w') as fh:
             fh.write(ast.unparse(ast.fix_missing_locations(tree)) + '\n')
+    return None
+
+
+def numpy_functions_tree(root):
+    """behaviour-preserving transform: array methods become numpy functions, `a.sum(axis=0)` -> `np.sum(a, axis=0)`
+    (sum/mean/std/var/min/max/cumsum/clip/round/reshape; receiver must not be the numpy module itself)"""
+    METHODS = {'sum', 'mean', 'std', 'var', 'cumsum', 'clip', 'reshape'}
+
+    for p, tree in _each_function(root):
+        alias = None
+        for n in tree.body:
+            for sub in ast.walk(n) if isinstance(n, (ast.If, ast.Try)) else [n]:
+                if isinstance(sub, ast.Import):
+                    for a in sub.names:
+                        if a.name in ('numpy', 'cupy') and a.asname in ('np', 'xp'):
+                            alias = alias or a.asname
+        if alias is None:
+            continue
+        mods = {'np', 'xp', 'numpy', 'u', 'self'}
+
+        class Tr(ast.NodeTransformer):
+            def visit_Call(self, node):
+                self.generic_visit(node)
+                f = node.func
+                if isinstance(f, ast.Attribute) and f.attr in METHODS and not (isinstance(f.value, ast.Name) and f.value.id in mods) \
+                        and not isinstance(f.value, ast.Attribute) or (
+                        isinstance(f, ast.Attribute) and f.attr in METHODS and isinstance(f.value, ast.Attribute)
+                        and f.value.attr in ('data', 'v', 'ts', 'fs')):
+                    if f.attr == 'reshape' and len(node.args) != 1:
+                        node.args = [ast.Tuple(elts=list(node.args), ctx=ast.Load())] if node.args else node.args
+                    return ast.Call(func=ast.Attribute(value=ast.Name(id=alias, ctx=ast.Load()), attr=f.attr, ctx=ast.Load()),
+                                    args=[f.value] + list(node.args), keywords=node.keywords)
+                return node
+        tree = ast.fix_missing_locations(Tr().visit(tree))
+        with open(p, 'w') as fh:
+            fh.write(ast.unparse(tree) + '\n')
     return None
 
 
